@@ -161,7 +161,8 @@ def tlc(module, cfg=None, cwd=None, env=None, workers=None, simulate=None, depth
     """Run TLC on <cwd>/<module>.tla with <cfg>. Returns TLCResult.
     rc 0 = no error; 12/13 = safety/liveness violation; other = tool failure."""
     cwd = cwd or SPECS
-    meta = os.path.join(BUILD, "tlc", "%s-%d-%d" % (module, os.getpid(), int(time.time() * 1000) % 10**9))
+    import uuid
+    meta = os.path.join(BUILD, "tlc", "%s-%d-%s" % (module, os.getpid(), uuid.uuid4().hex[:12]))
     os.makedirs(meta, exist_ok=True)
     jopts = ["-XX:+UseParallelGC", "-Xmx" + xmx, "-Xss64m",
              "-DTLA-Library=" + os.path.join(SPECS, "lib")]
